@@ -6,7 +6,7 @@ open Sys Spec
 theorem newer_self (a : Option Ver) : Sys.newer a a = a := by
   cases a <;> simp [Sys.newer]
 
-theorem committed_eq {c : Sys} {s : State} (h : R c s) (k : Key) :
+theorem committed_eq {c : Sys} {s : State} {cl : List Nat} (h : Rx cl c s) (k : Key) :
     committed s k = (Sys.latest (c.main k)).map absV := by
   obtain ⟨pre, h1, _, h3⟩ := h.hist k
   unfold committed Sys.latest
@@ -27,7 +27,8 @@ theorem committed_eq {c : Sys} {s : State} (h : R c s) (k : Key) :
     | some v => simp
 
 /-- snapshot lookups on the never-forgotten history agree with lookups on what main still holds -/
-theorem snapshot_eq {c : Sys} {s : State} (h : R c s) (k : Key) {r : TxRec} (hr : r ∈ c.reg) :
+theorem snapshot_eq {c : Sys} {s : State} {cl : List Nat} (h : Rx cl c s) (k : Key) {r : TxRec} (hr : r ∈ c.reg)
+    (hcl : r.id ∉ cl) :
     ((s.hist k).filter (fun v => v.stamp < r.seq)).getLast? = (Sys.lastBefore (c.main k) r.seq).map absV := by
   obtain ⟨pre, h1, h2, h3⟩ := h.hist k
   rw [lastBefore_eq_spec (h.inv.mainSorted k), h1, List.filter_append]
@@ -48,7 +49,7 @@ theorem snapshot_eq {c : Sys} {s : State} (h : R c s) (k : Key) {r : TxRec} (hr 
       rw [List.filter_eq_nil_iff] at hnil
       have := hnil hd hmem
       simp at this
-      have := hlt r hr
+      have := hlt r hr hcl
       omega
     cases hg : ((c.main k).filter (fun v => decide (v.seq < r.seq))).getLast? with
     | none => exact absurd (List.getLast?_eq_none_iff.mp hg) hne
@@ -60,7 +61,7 @@ theorem snapshot_eq {c : Sys} {s : State} (h : R c s) (k : Key) {r : TxRec} (hr 
 def ruFold (c : Sys) (k : Key) (rs : List TxRec) (init : Option Ver) : Option Ver :=
   rs.foldl (fun acc r => Sys.newer (c.ownLatest r.id k) acc) init
 
-theorem ruFold_spec {c : Sys} {s : State} (h : R c s) (k : Key) :
+theorem ruFold_spec {c : Sys} {s : State} {cl : List Nat} (h : Rx cl c s) (k : Key) :
     s.open_.foldl (fun acc t => newerS (t.own k) acc) (committed s k)
       = (ruFold c k c.reg (Sys.latest (c.main k))).map absV := by
   have hreg := h.reg
@@ -231,13 +232,13 @@ end FsDb
 namespace FsDb
 open Sys Spec
 
-theorem coreGet_main {c : Sys} {s : State} (h : R c s) (k : Key) :
+theorem coreGet_main {c : Sys} {s : State} {cl : List Nat} (h : Rx cl c s) (k : Key) :
     (c.coreGet ⟨mainTx, .rc, 0⟩ k).map absV = visible s .rc 0 (fun _ => none) k := by
   simp only [Sys.coreGet, visible, Sys.ownLatest, Sys.txStore, if_true]
   rw [newer_self, committed_eq h k]
   simp [newerS]
 
-theorem coreGet_reg {c : Sys} {s : State} (h : R c s) {tx : TxRec} (htx : tx ∈ c.reg)
+theorem coreGet_reg {c : Sys} {s : State} {cl : List Nat} (h : Rx cl c s) {tx : TxRec} (htx : tx ∈ c.reg) (hcl : tx.id ∉ cl)
     {own : Key → Option SVer} (k : Key) (hown : own k = (c.ownLatest tx.id k).map absV) :
     (c.coreGet tx k).map absV = visible s tx.level tx.seq own k := by
   have hne : tx.id ≠ mainTx := h.inv.regMain tx htx
@@ -251,7 +252,7 @@ theorem coreGet_reg {c : Sys} {s : State} (h : R c s) {tx : TxRec} (htx : tx ∈
     rw [newer_map_absV, hown, committed_eq h k]
   | rr =>
     simp only
-    rw [hown, snapshot_eq h k htx]
+    rw [hown, snapshot_eq h k htx hcl]
     cases ho : c.ownLatest tx.id k with
     | none => simp [Sys.newer]
     | some o =>
@@ -275,7 +276,7 @@ theorem coreGet_reg {c : Sys} {s : State} (h : R c s) {tx : TxRec} (htx : tx ∈
           simp [Sys.newer, this]
   | ser =>
     simp only
-    rw [hown, snapshot_eq h k htx]
+    rw [hown, snapshot_eq h k htx hcl]
     cases ho : c.ownLatest tx.id k with
     | none => simp [Sys.newer]
     | some o =>
@@ -325,7 +326,7 @@ theorem coreGet_mem {c : Sys} (h : Inv c) (tx : TxRec) (k : Key) {v : Ver}
     exact key _ (fun x hx => h.main_sub_all (lastBefore_mem (h.mainSorted k) hx)) hv
 
 /-- reader contexts correspond -/
-theorem ctx_cases {c : Sys} {s : State} (h : R c s) (t : Nat) :
+theorem ctx_cases {c : Sys} {s : State} {cl : List Nat} (h : Rx cl c s) (t : Nat) :
     (c.regGet t = none ∧ ctxOf s t = none) ∨
     (t = mainTx ∧ c.regGet t = some ⟨mainTx, .rc, 0⟩ ∧ ctxOf s t = some (.rc, 0, fun _ => none)) ∨
     (t ≠ mainTx ∧ ∃ tx x, c.regGet t = some tx ∧ tx ∈ c.reg ∧ tx.id = t ∧ x ∈ s.open_ ∧ x.id = t ∧
@@ -357,7 +358,8 @@ theorem ctx_cases {c : Sys} {s : State} (h : R c s) (t : Nat) :
         exact ⟨ht, tx, x, rfl, htm, htid, hxm, hxid, by simp [h2, h3]⟩
 
 /-- `store.Get` returns what the specification says -/
-theorem get_eq {c : Sys} {s : State} (h : R c s) (t : Nat) (k : Key) : c.get t k = Spec.get s t k := by
+theorem get_eq {c : Sys} {s : State} {cl : List Nat} (h : Rx cl c s) (t : Nat) (k : Key)
+    (hcl : t ∉ cl := by simp) : c.get t k = Spec.get s t k := by
   have out_eq : ∀ (tx : TxRec) (sv : Option SVer), (c.coreGet tx k).map absV = sv →
       (match c.coreGet tx k with
         | none => Out.err .notFound
@@ -379,11 +381,12 @@ theorem get_eq {c : Sys} {s : State} (h : R c s) (t : Nat) (k : Key) : c.get t k
   · rw [h1, h2]
   · rw [h1, h2]; exact out_eq _ _ (coreGet_main h k)
   · rw [h1, h2]
-    refine out_eq _ _ (coreGet_reg h htx k ?_)
+    refine out_eq _ _ (coreGet_reg h htx (htid ▸ hcl) k ?_)
     rw [htid, ← hxid]; exact h.own x hx k
 
 /-- `store.GetKeys` lists what the specification says -/
-theorem getKeys_eq {c : Sys} {s : State} (h : R c s) (t : Nat) : c.getKeys t = Spec.getKeys s t := by
+theorem getKeys_eq {c : Sys} {s : State} {cl : List Nat} (h : Rx cl c s) (t : Nat)
+    (hcl : t ∉ cl := by simp) : c.getKeys t = Spec.getKeys s t := by
   have listed_eq : ∀ (tx : TxRec) (k : Key) (sv : Option SVer), (c.coreGet tx k).map absV = sv →
       c.listed tx k = hasValue sv := by
     intro tx k sv hsv
@@ -411,7 +414,7 @@ theorem getKeys_eq {c : Sys} {s : State} (h : R c s) (t : Nat) : c.getKeys t = S
     congr 1
     apply List.filter_congr
     intro k _
-    refine listed_eq _ k _ (coreGet_reg h htx k ?_)
+    refine listed_eq _ k _ (coreGet_reg h htx (htid ▸ hcl) k ?_)
     rw [htid, ← hxid]; exact h.own x hx k
 
 end FsDb
